@@ -3,8 +3,6 @@
 #include "cqv.h"
 #include "delta_spec.h"
 #include <stdlib.h>
-int64_t cqv_dummy;   /* ghost object, see contracts/delta.ovl */
-size_t cqv_k;          /* ghost index: arbitrary */
 #include "src/encoding/delta.c"
 #include "src/encoding/delta_length.c"
 #include "src/encoding/delta_strings.c"
@@ -129,4 +127,55 @@ void h_delta_strings_decode(void) {
 #ifdef CQV_OOM
   if (st == CARQUET_ERROR_OUT_OF_MEMORY && n == 0) CQV_CANARY("delta_strings_decode can report allocation failure");
 #endif
+}
+
+/* ---- harness-is-contract variants (objects built here, freed here): byte-array views, failure frees everything ---- */
+#define VIEW_IN(v, base, cap) ((v).length >= 0 && ((v).length == 0 || (__CPROVER_same_object((v).data, (base)) && \
+  __CPROVER_POINTER_OFFSET((v).data) >= 0 && (size_t)__CPROVER_POINTER_OFFSET((v).data) + (size_t)(v).length <= (cap))))
+
+void h_delta_length_views(void) {
+  size_t n = nondet_size_t();
+  int32_t num = nondet_i32();
+  __CPROVER_assume(n <= CQV_MAXBUF && num <= CQV_NMAX);
+  uint8_t *data = malloc(n);
+  carquet_byte_array_t *values = malloc(sizeof(carquet_byte_array_t) * CQV_NMAX);
+  __CPROVER_assume(data != NULL && values != NULL);
+  size_t consumed = 0;
+  carquet_status_t st = carquet_delta_length_decode(data, n, values, num, nondet_bool() ? &consumed : NULL);
+  if (st == CARQUET_OK) {
+    __CPROVER_assert(num >= 1 && consumed <= n, "consumed bytes within the input");
+    __CPROVER_assert(VIEW_IN(values[0], data, n), "string 0 lies inside the input");
+    if (num > 1) __CPROVER_assert(VIEW_IN(values[1], data, n), "string 1 lies inside the input");
+    if (num > 2) __CPROVER_assert(VIEW_IN(values[2], data, n), "string 2 lies inside the input");
+    if (num > 2) CQV_CANARY("delta_length views: three strings decoded");
+  }
+#ifdef CQV_OOM
+  if (st == CARQUET_ERROR_OUT_OF_MEMORY) CQV_CANARY("delta_length views: allocation failure reported");
+#endif
+  free(data); free(values);   /* whatever the decoder allocated must be gone: --memory-leak-check */
+  CQV_CANARY("delta_length views end");
+}
+
+void h_delta_strings_views(void) {
+  size_t n = nondet_size_t(), wn = nondet_size_t();
+  int32_t num = nondet_i32();
+  __CPROVER_assume(n <= CQV_MAXBUF && wn <= CQV_MAXBUF && num <= CQV_NMAX);
+  uint8_t *data = malloc(n);
+  uint8_t *work = malloc(wn);
+  carquet_byte_array_t *values = malloc(sizeof(carquet_byte_array_t) * CQV_NMAX);
+  __CPROVER_assume(data != NULL && values != NULL && work != NULL);
+  size_t consumed = 0;
+  carquet_status_t st = carquet_delta_strings_decode(data, n, values, num, work, wn, nondet_bool() ? &consumed : NULL);
+  if (st == CARQUET_OK) {
+    __CPROVER_assert(num >= 1 && consumed <= n, "consumed bytes within the input");
+    __CPROVER_assert(VIEW_IN(values[0], work, wn), "string 0 lies inside the work buffer");
+    if (num > 1) __CPROVER_assert(VIEW_IN(values[1], work, wn), "string 1 lies inside the work buffer");
+    if (num > 2) __CPROVER_assert(VIEW_IN(values[2], work, wn), "string 2 lies inside the work buffer");
+    if (num > 2) CQV_CANARY("delta_strings views: three strings decoded");
+  }
+#ifdef CQV_OOM
+  if (st == CARQUET_ERROR_OUT_OF_MEMORY && wn > 4) CQV_CANARY("delta_strings views: failure reported");
+#endif
+  free(data); free(values); free(work);
+  CQV_CANARY("delta_strings views end");
 }
